@@ -8,6 +8,7 @@ import Tw.Proofs.HuffmanStream
 import Tw.Model.HuffmanFreq
 import Tw.Proofs.HuffmanFreq
 import Tw.Proofs.HuffmanFreqInner
+import Tw.Proofs.HuffmanFreqLeaf
 import Tw.Gen.Huffman
 
 /-!
@@ -204,38 +205,42 @@ theorem C07_full_witness : ¬ C07_full := by
   rw [fromFrequencies_zero_panics] at ht
   cases ht
 
-/-- Proved for **every** frequency vector on which `from_frequencies` returns (no further hypothesis):
-the table has 513 entries, every inner node's children have smaller indices, and therefore the
-decoder with that table terminates on every input, its result at a smaller capacity is the result at
-a larger one cut down, and it reports the capacity error exactly when the output does not fit
-(output ≤ capacity holds for any table: `decompress_within_capacity`). -/
-theorem fromFrequencies_decoder_total (f : List Nat) (t : Table) (hok : fromFrequencies f = .ok t) :
-    t.size = NUM_NODES
-    ∧ (∀ input cap, decompress t input cap ≠ .diverge)
-    ∧ (∀ input cap' cap, cap' ≤ cap → decompress t input cap' = (decompress t input cap).trunc cap')
-    ∧ (∀ input cap, decompress t input cap = .capacity ↔
-        ∀ cap' out, decompress t input cap' = .ok out → cap < out.length) :=
-  have h := fromFrequencies_inner f t hok
-  ⟨h.1, fun input cap => decompress_terminates_of_childLt t h.2 input cap,
-   fun input cap' cap hc => decompress_trunc_of_childLt t h.2 input cap' cap hc,
-   fun input cap => decompress_capacity_iff_of_childLt t h.2 input cap⟩
+/-- **Every table `Huffman::from_frequencies` returns is well-formed** (whenever it returns, i.e. does
+not hit D16): the merge loop builds a forest whose inner nodes have two different children with
+smaller indices and in which every node but the root is somebody's child; the iterative traversal
+(explicit stack, direction bits) is the recursive one and writes into every symbol's entry the code of
+a path from the root to that symbol, of length 1..24. -/
+theorem fromFrequencies_wellFormed (f : List Nat) (t : Table) (hok : fromFrequencies f = .ok t) :
+    WellFormed t := Tw.Huffman.fromFrequencies_wellFormed f t hok
 
-/-- For the remaining clauses: for every frequency vector on which the construction succeeds with a table
-satisfying the two decidable predicates (the driver decides them for every sampled vector and
-reports `ok-but-not-wellformed` otherwise), the codec with that table is lossless, predicts its
-length, is total and bounded, and agrees with the reference algorithms run on the same table. -/
-theorem fromFrequencies_tables_partial (f : List Nat) (t : Table) (_hok : fromFrequencies f = .ok t)
-    (h : WellFormed t) (hl : LutOk t) :
+/-- Hence, for **every** frequency vector on which `from_frequencies` returns, with no further
+hypothesis: the codec with that table is lossless in both output forms, the streaming (Rust-form)
+compressor computes the spec form, the decoder is total, bounded and capacity-exact, and
+`compress_bug` is byte-identical to the reference's `Compress` run on the same table. -/
+theorem fromFrequencies_tables (f : List Nat) (t : Table) (hok : fromFrequencies f = .ok t) :
     (∀ bug xs cap, xs.length ≤ cap → decompress t (compress t bug xs) cap = .ok xs)
+    ∧ (∀ bug xs cap, compressStreamInto t bug xs cap =
+        if (compress t bug xs).length ≤ cap then .ok (compress t bug xs) else .capacity)
     ∧ (∀ input cap, decompress t input cap ≠ .diverge)
     ∧ (∀ input cap out, decompress t input cap = .ok out → out.length ≤ cap)
-    ∧ (∀ xs, compress t true xs = refCompress t xs)
-    ∧ (∀ fuel input cap out, refDecompress t fuel input cap = .ok out → decompress t input cap = .ok out) :=
+    ∧ (∀ input cap' cap, cap' ≤ cap → decompress t input cap' = (decompress t input cap).trunc cap')
+    ∧ (∀ xs, compress t true xs = refCompress t xs) :=
+  have h := Tw.Huffman.fromFrequencies_wellFormed f t hok
   ⟨fun bug xs cap hc => decompress_compress t h bug xs cap hc,
+   fun bug xs cap => compressStreamInto_eq t h bug xs cap,
    fun input cap => decompress_terminates t h input cap,
    fun input cap out ho => decompress_bound t input cap out ho,
-   fun xs => (refCompress_eq_compress_bug t h xs).symm,
-   fun fuel input cap out hr => refDecompress_agrees t h hl fuel input cap out hr⟩
+   fun input cap' cap hc => decompress_trunc t h input cap' cap hc,
+   fun xs => (refCompress_eq_compress_bug t h xs).symm⟩
+
+/-- The one clause that still carries a hypothesis for tables from frequency vectors: agreement
+with the reference *decoder* needs `LutOk t` (decided by the driver for every sampled vector;
+kernel-checked for the built-in table). -/
+theorem fromFrequencies_reference_decoder_partial (f : List Nat) (t : Table)
+    (hok : fromFrequencies f = .ok t) (hl : LutOk t) (fuel : Nat) (input : List UInt8) (cap : Nat)
+    (out : List UInt8) (hr : refDecompress t fuel input cap = .ok out) :
+    decompress t input cap = .ok out :=
+  refDecompress_agrees t (Tw.Huffman.fromFrequencies_wellFormed f t hok) hl fuel input cap out hr
 
 /-! ## non-vacuity -/
 
